@@ -422,7 +422,7 @@ class AminoAcidSeqRecordWithCoordinates(AminoAcidSeqRecord):
                 sequence is aligned tp.
             orf (FeatureLocation): The open reading frame start and end.
         """
-        super().__init__(seq=seq, *args, **kwargs)
+        super().__init__(seq, *args, **kwargs)
         self.locations = locations or []
         # query index
         self.orf = orf
